@@ -48,35 +48,36 @@ Proof.
 Qed.
 
 (* ---------------- deviation of a leg ---------------- *)
-Lemma dev1_mean din dout len : ~ (len == 0)%Q -> (dev1 din dout len == (din + dout) / 2)%Q.
-Proof.
-  intros H. unfold dev1. destruct (Qeq_bool len 0) eqn:E; [apply Qeq_bool_iff in E; contradiction|]. field. exact H.
-Qed.
-
-Lemma dev1_zero din dout len : (len == 0)%Q -> (dev1 din dout len == din)%Q.
-Proof.
-  intros H. unfold dev1. apply Qeq_bool_iff in H. rewrite H. field.
-Qed.
-
-(* a leg of non-zero length moves along the mean of its two station directions *)
-Lemma dev_mean a b len : ~ (len == 0)%Q -> veq (dev a b len) (vmean a b).
-Proof.
-  intros H. vdes. unfold dev, veq, vmean, vscale, vadd. simpl.
-  repeat split; rewrite dev1_mean by exact H; field.
-Qed.
-
-Lemma dev_zero a b len : (len == 0)%Q -> veq (dev a b len) a.
-Proof.
-  intros H. vdes. unfold dev, veq. simpl. repeat split; apply dev1_zero; exact H.
-Qed.
+(* every leg moves along the mean of its two station directions *)
+Lemma dev_mean a b : veq (dev a b) (vmean a b).
+Proof. vdes. unfold dev, veq, vmean, vscale, vadd. simpl. repeat split; field. Qed.
 
 (* where the two station directions coincide the leg moves along that direction: by exactly the depth difference *)
-Lemma dev_same a b len : veq a b -> veq (dev a b len) a.
+Lemma dev_same a b : veq a b -> veq (dev a b) a.
 Proof.
-  intros Hab. destruct (Qeq_dec len 0) as [H|H]; [apply dev_zero; exact H|].
-  eapply veq_trans; [apply dev_mean; exact H|].
-  vdes. unfold veq, vmean, vscale, vadd in *. simpl in *. destruct Hab as [H1 [H2 H3]].
+  intros Hab. vdes. unfold veq, dev in *. simpl in *. destruct Hab as [H1 [H2 H3]].
   rewrite <- H1, <- H2, <- H3. repeat split; field.
+Qed.
+
+(* the pre-repair formula: the mean for a leg that has a length ... *)
+Lemma dev1_old_mean g din dout len : ~ (len == 0)%Q -> (dev1_old g din dout len == (din + dout) / 2)%Q.
+Proof.
+  intros H. unfold dev1_old. destruct (Qeq_bool len 0) eqn:E; [apply Qeq_bool_iff in E; contradiction|]. field. exact H.
+Qed.
+
+(* ... but the FIRST station's direction (whatever finite garbage the uninitialised entry holds) for a zero-length leg *)
+Lemma dev1_old_zero g din dout len : (len == 0)%Q -> (dev1_old g din dout len == din)%Q.
+Proof.
+  intros H. unfold dev1_old. pose proof H as E. apply Qeq_bool_iff in E. rewrite E. rewrite H. field.
+Qed.
+
+Lemma dev_old_zero_leg_witness : forall g,
+  veq (dev_old g (0, 0, 1)%Q (0, 0, -1)%Q 0%Q) (0, 0, 1)%Q /\ ~ veq (dev_old g (0, 0, 1)%Q (0, 0, -1)%Q 0%Q) (vmean (0, 0, 1)%Q (0, 0, -1)%Q).
+Proof.
+  intros g. split.
+  - unfold dev_old, veq. repeat split; apply dev1_old_zero; reflexivity.
+  - unfold dev_old, veq, vmean, vscale, vadd. intros [_ [_ H]]. rewrite dev1_old_zero in H by reflexivity.
+    vm_compute in H. discriminate.
 Qed.
 
 Section Proofs.
@@ -89,18 +90,18 @@ Section Proofs.
   Proof.
     induction t as [|[t0 a0] r IH]; [reflexivity|]. destruct r as [|[t1 a1] r']; [reflexivity|].
     change (legs dir ((t0, a0) :: (t1, a1) :: r'))
-      with (((t1 - t0)%Q, dev (dir a0) (dir a1) (t1 - t0)%Q) :: legs dir ((t1, a1) :: r')).
+      with (((t1 - t0)%Q, dev (dir a0) (dir a1)) :: legs dir ((t1, a1) :: r')).
     simpl length in *. rewrite IH. lia.
   Qed.
 
   Lemma legs_nth : forall (t : list station) k t0 a0 t1 a1,
     nth_error t k = Some (t0, a0) -> nth_error t (S k) = Some (t1, a1) ->
-    nth_error (legs dir t) k = Some ((t1 - t0)%Q, dev (dir a0) (dir a1) (t1 - t0)%Q).
+    nth_error (legs dir t) k = Some ((t1 - t0)%Q, dev (dir a0) (dir a1)).
   Proof.
     induction t as [|[x ax] r IH]; intros k t0 a0 t1 a1 H0 H1; [destruct k; discriminate|].
     destruct r as [|[y ay] r']; [destruct k; simpl in H1; try discriminate; destruct k; discriminate|].
     change (legs dir ((x, ax) :: (y, ay) :: r'))
-      with (((y - x)%Q, dev (dir ax) (dir ay) (y - x)%Q) :: legs dir ((y, ay) :: r')).
+      with (((y - x)%Q, dev (dir ax) (dir ay)) :: legs dir ((y, ay) :: r')).
     destruct k as [|k]; simpl in H0, H1 |- *.
     - inversion H0; inversion H1; subst. reflexivity.
     - apply IH; assumption.
